@@ -98,7 +98,7 @@ func genEditOn(r *simkit.Rand, p *simkit.Plan, actor string, id *int64, side str
 		p.Ops = append(p.Ops, simkit.Op{Actor: actor, Kind: "chmod", S: []string{side, path}})
 	case 5:
 		*id++
-		p.Ops = append(p.Ops, simkit.Op{Actor: actor, Kind: "edit", N: []int64{*id, int64(r.Intn(3) / 2)}, S: []string{side, path}})
+		p.Ops = append(p.Ops, simkit.Op{Actor: actor, Kind: "edit", N: []int64{*id, int64(simkit.Pick(r, []int{0, 0, 1, 2, 2}))}, S: []string{side, path}})
 	case 6:
 		p.Ops = append(p.Ops, simkit.Op{Actor: actor, Kind: "untracked", S: []string{side, path}})
 	case 7:
